@@ -192,6 +192,9 @@ def validate(ctx, mods: list[str], ex: Exploration, per_fn: int = 60) -> None:
                     with torch.no_grad():
                         try:
                             r = f(**kwargs)
+                        except TypeError:           # Python-scalar code (`round(shift)` on a float): pass 0-dim tensors as floats
+                            r = f(**{k: (float(v) if isinstance(v, torch.Tensor) and v.ndim == 0 and v.dtype.is_floating_point else v)
+                                     for k, v in kwargs.items()})
                         except AttributeError:      # tensor-only methods (`.long()`): pass integers as 0-dim tensors
                             r = f(**{k: (torch.tensor(v) if isinstance(v, int) and not isinstance(v, bool) and k != "pointer" and k != "size" else v)
                                      for k, v in kwargs.items()})
